@@ -277,3 +277,32 @@ func NegativeTimeout(rng *wh.Rng, thorough bool) []Scenario {
 	}
 	return out
 }
+
+// PollingClose: the application polls the public IsClosed() from several goroutines (it takes closedLock for an instant)
+// while Close is called once: the call must return - every call returns, whatever else uses the router's public API.
+// Isolated: a Close that never returns leaves the router open and its goroutines behind.
+func PollingClose(rng *wh.Rng, thorough bool) []Scenario {
+	var out []Scenario
+	rounds := 6
+	if thorough {
+		rounds = 16
+	}
+	for i := 0; i < rounds; i++ {
+		out = append(out, Scenario{Handlers: []HandlerSpec{{}}, Seed: rng.Next(), Isolate: true, WaitMs: 8000, Tag: fmt.Sprintf("poll/close/%d", i),
+			Prog: prog("add:0", "run", "wrun", "emit:0:1", "whe:1", fmt.Sprintf("poll:%d", 4+4*(i%3)), "nap:2", "close:1", "wclose", "wrr")})
+	}
+	return out
+}
+
+// DuplicateAdd: AddHandler with a taken name panics with the documented DuplicateHandlerNameError; the application recovers
+// it and goes on: Run, traffic and Close must work as if nothing had happened.
+func DuplicateAdd(rng *wh.Rng, thorough bool) []Scenario {
+	return []Scenario{
+		{Handlers: []HandlerSpec{{}}, Seed: rng.Next(), Isolate: true, WaitMs: 8000, Tag: "dupadd/close",
+			Prog: prog("add:0", "dup:0", "close:2", "wclose", "run", "wrr")}, // Run afterwards: the handler is started and ends, nothing is left waiting
+		{Handlers: []HandlerSpec{{}}, Seed: rng.Next(), Isolate: true, Conf: true, WaitMs: 8000, Tag: "dupadd/before-run",
+			Prog: prog("add:0", "dup:0", "run", "wrun", "emit:0:1", "whe:1", "close:2", "wclose", "wrr")},
+		{Handlers: []HandlerSpec{{}, {}}, Seed: rng.Next(), Isolate: true, WaitMs: 8000, Tag: "dupadd/running",
+			Prog: prog("add:0", "run", "wrun", "dup:0", "add:1", "rh", "wst:1", "emit:1:1", "whe:1", "close:1", "wclose", "wrr")},
+	}
+}
